@@ -678,7 +678,7 @@ pub fn run(run: &Run) {
     // 3. structured adversaries + random bytes
     prop_search(
         run,
-        Search { check: "adversary", cases: run.tier.pick(250_000, 6_000_000), workers, max_shrink_iters: 8000 },
+        Search { check: "adversary", cases: run.tier.pick(2_000_000, 12_000_000), workers, max_shrink_iters: 8000 },
         adversary,
         |b| match check_bytes(b) {
             Ok(()) => Outcome::pass(nontrivial(b)),
